@@ -825,6 +825,8 @@ class ParametricSpectrum(Spectrum):
         if ar is not None:
             if ar < 0:
                 raise errors.SpectrumARError
+            if ar != self.__ar_order:
+                self.modified = True
             self.__ar_order = ar
     def _get_ar_order(self):
         return self.__ar_order
@@ -834,6 +836,8 @@ class ParametricSpectrum(Spectrum):
         if ma is not None:
             if ma < 0:
                 raise errors.SpectrumMAError
+            if ma != self.__ma_order:
+                self.modified = True
             self.__ma_order = ma
         else:
             self.__ma_order = None
